@@ -226,7 +226,7 @@ func (g *projGen) perturb(m *pMethod, structNames []string) string {
 	if len(bindIdx) > 1 {
 		kinds = append(kinds, "retarget")
 	}
-	kinds = append(kinds, "second-body", "body-and-form", "drop-url-param", "null-prop")
+	kinds = append(kinds, "second-body", "body-and-form", "drop-url-param", "null-prop", "results-error-field", "local-context-param")
 	k := rng.Pick(r, kinds)
 	switch k {
 	case "drop-annot":
@@ -294,6 +294,12 @@ func (g *projGen) perturb(m *pMethod, structNames []string) string {
 		m.Results = []string{"string", "int", "error"}
 	case "results-nonerror":
 		m.Results = []string{"string"}
+	case "results-error-field":
+		// a struct that only HAS a field of type error does not implement it
+		m.Results = []string{"string", "Failure"}
+	case "local-context-param":
+		// a user type that is merely named Context is an ordinary (unreferenced) parameter
+		m.Params = append(m.Params, pParam{Name: "rc", Type: "Context"})
 	case "verb-invalid":
 		if methodIdx >= 0 {
 			m.Annots[methodIdx].Value = "FETCH"
@@ -392,6 +398,14 @@ func genProject(r *rng.R, nPerturb int) (pProject, []string) {
 		p.Types = append(p.Types, pType{Kind: "struct", Name: "Box", Pkg: "ctl", File: tp("ctl"), Fields: []pField{{Name: "W", Type: "float64", Tag: `json:"w"`}, {Name: "Tags", Type: "map[string]string", Tag: `json:"tags"`}}})
 	}
 	structNames := []string{}
+	// declared after the body candidates are collected: an error type (embeds error), a look-alike that only HAS
+	// an error field, and a user type that is merely NAMED Context
+	defer func() {}()
+	extraTypes := []pType{
+		{Kind: "struct", Name: "MyErr", Pkg: "ctl", File: "errs.go", Fields: []pField{{Type: "error", Embedded: true}, {Name: "Code", Type: "int", Tag: `json:"code"`}}},
+		{Kind: "struct", Name: "Failure", Pkg: "ctl", File: "errs.go", Fields: []pField{{Name: "Err", Type: "error", Tag: `json:"-"`}, {Name: "Code", Type: "int", Tag: `json:"code"`}}},
+		{Kind: "struct", Name: "Context", Pkg: "ctl", File: "errs.go", Fields: []pField{{Name: "X", Type: "int", Tag: `json:"x"`}}},
+	}
 	for _, t := range p.Types {
 		if t.Kind == "struct" {
 			if t.Pkg == "ctl" {
@@ -432,7 +446,17 @@ func genProject(r *rng.R, nPerturb int) (pProject, []string) {
 		}
 		p.Controllers = append(p.Controllers, c)
 	}
+	p.Types = append(p.Types, extraTypes...)
 	applied := []string{}
+	// a custom error type is as good as `error`
+	for ci := range p.Controllers {
+		for mi := range p.Controllers[ci].Methods {
+			m := &p.Controllers[ci].Methods[mi]
+			if n := len(m.Results); n > 0 && m.Results[n-1] == "error" && r.Chance(1, 10) {
+				m.Results[n-1] = "MyErr"
+			}
+		}
+	}
 	if nPerturb > 0 && r.Chance(1, 4) {
 		// a same-verb overlapping template next to an existing route: a path-conflict WARNING
 		ci := r.Intn(len(p.Controllers))
